@@ -57,6 +57,7 @@ type zzDP struct {
 	nrep    int
 	repMin  int // reports per query/update: repMin..repMax (C11 relaxation); default exactly per contract
 	relaxed bool
+	canned  []report.USAReport // if set, returned instead of fresh reports (C10)
 }
 
 var errZZFault = errors.New("zzDP: injected fault")
@@ -156,6 +157,10 @@ func (d *zzDP) rulesOf(seid uint64) int {
 
 func (d *zzDP) report(urrid uint32) report.USAReport {
 	d.nrep++
+	if len(d.canned) > 0 {
+		r := d.canned[0]
+		return r
+	}
 	return report.USAReport{
 		URRID: urrid,
 		VolumMeasure: report.VolumeMeasure{
